@@ -206,10 +206,16 @@ func (g *gen) c11Base(hook bool) []Op {
 		for j := 0; j < np; j++ {
 			pay := pays[(k+j+g.r.Intn(len(pays)))%len(pays)]
 			pt := &PanicTarget{ID: target.ID, Method: spec.method, K: k, Verb: verb, Dirv: dirv, Ctx: ctx, Depth: depth, Payload: pay, NilRcv: nilrcv}
-			if !nilrcv && route != 5 && g.chance(0.06) {
-				// a payload whose own printing panics: must propagate
+			if !nilrcv && g.chance(0.08) {
+				// a payload whose own printing panics: must propagate - up
+				// to the caller, or, inside an enclosing user method, up to
+				// the enclosing printer, which contains it
 				pt.Payload = []Val{{K: "stringer", ID: 901, R: "never", P: []Step{{A: "pa", S: "inner"}}}}
-				pt.Nested = true
+				if route == 5 {
+					pt.NestedContained = true
+				} else {
+					pt.Nested = true
+				}
 			}
 			ops = append(ops, Op{K: "panicx", In: cloneOp(&in), PT: pt})
 		}
